@@ -959,6 +959,7 @@ sPresetMap(
     printf("** PresetMap() allocates " IFMT " reals to lusup[*]....\n", nextpos);
 #endif
 
+    SLU_MT_VEV(VE_PRESET_MAP, n, nextpos, map_in_sup);
     free (marker);
     return nextpos;
 }
